@@ -295,7 +295,11 @@ _p('C10', 'Saving and loading an attack graph preserves it',
             're-int()ed (also inside add_attacker); each value lands in the field it came from',
             'R8 iv: attack_steps keyed by unique full name, children/parents/entry points by unique node id',
             'R8 vi: extension tables agree',
-            'R4: explicit node / attacker ids are honoured, duplicates rejected on the stored id'],
+            'R4: explicit node / attacker ids are honoured, duplicates rejected on the stored id',
+            'R2 DETACH: removing a node leaves no attacker entry point / reached step referring to it (a dangling id '
+            'makes the saved file unloadable)',
+            'R8 viii: the file layer adds no value-rewriting hook; R8 iii: no lossy writer conversion (round, '
+            'formatting with a precision)'],
    undecided=['value equality of the reloaded graph', 'file-library behaviour'],
    anchors=[('R8', 'AttackGraph._from_dict'), ('R8', 'AttackGraphNode.to_dict'), ('R8', 'Attacker.to_dict'),
             ('R8', 'AttackGraph.load_from_file'), ('R4', 'AttackGraph.add_attacker'),
@@ -332,7 +336,7 @@ _p('C12', 'Attack-surface queries follow their definition; incremental = recompu
             ('R17', 'update_attack_surface_add_nodes'), ('R17', 'get_defense_surface')], floor=6)
 
 _p('C13', 'Pruning removes exactly the non-viable or unnecessary attack steps',
-   ['R1', 'R2', 'R3', 'R17', 'R25'],
+   ['R1', 'R2', 'R3', 'R17', 'R10', 'R25'],
    decided=['R1: the pruning loop does not remove from the node list it walks (every prunable '
             'node is visited)',
             'R2/R3 on remove_node: neighbours, attackers, entry points and both indexes are cleaned',
@@ -379,7 +383,7 @@ _p('C17', 'Malformed MAL source is rejected, never half-compiled',
    anchors=[('R9', 'MalCompiler.compile')], floor=2)
 
 _p('C15', 'Language graph mirrors the language and over-approximates every attack graph',
-   ['R2', 'R3', 'R9', 'R12', 'R18', 'R22', 'R20', 'R14', 'R25'],
+   ['R2', 'R3', 'R9', 'R12', 'R18', 'R22', 'R20', 'R14', 'R17', 'R25'],
    decided=['R2: super_assets/sub_assets and step children/parents are created pairwise (P3, P4)',
             'R9b: lookups of super asset, association ends, sub-type, target asset and target step are '
             'each followed by a test whose failing branch raises',
@@ -388,7 +392,12 @@ _p('C15', 'Language graph mirrors the language and over-approximates every attac
             'R18: association lookup by fields/assets and field typing of step expressions treat both orientations '
             'alike, each test constrains the field on one side AND the source type on the other; the '
             'already-created lookup identifies an association by name and both end assets',
-            'R3: LanguageGraph.regenerate_graph re-initialises what __init__ initialises'],
+            'R3: LanguageGraph.regenerate_graph re-initialises what __init__ initialises',
+            'R17 T13: an asset type lists its ancestors\' associations and every association naming it on either side',
+            'R20 CLOSUREFN: is_subasset_of / get_all_subassets / get_all_superassets follow the right link, transitively, '
+            'and include the asset itself',
+            'R14(2): the attack-graph closure of field* is non-reflexive (visited set starts empty), as the language '
+            'graph types it'],
    undecided=['the over-approximation clause (relates two evaluators)',
               'static typing of step expressions'],
    anchors=[('R2', 'LanguageGraph._generate_graph'), ('R3', 'LanguageGraph.regenerate_graph'),
